@@ -483,3 +483,369 @@ def build(spec: dict) -> ir.Model:
     rng = random.Random(f"c13gen:{spec.get('seed', 0)}")
     b = Builder(rng, spec)
     return b.build_exec() if spec.get("family") == "exec" else b.build_struct()
+
+
+# =============================================================================================
+# Pass pipelines: the workload of the "a functionalized pass never alters its input model" clause
+# =============================================================================================
+# A pipeline is a JSON-able tree:
+#   ["b", name]                         a built-in pass of onnx_ir.passes.common
+#   ["s", declaration, seed, fails]      a synthetic pass that behaves exactly as it declares (below)
+#   ["seq", [members]]                   ir.passes.Sequential(*members)
+#   ["pm", [members], steps, early]      ir.passes.PassManager(members, steps=, early_stop=)
+#   ["fn", member]                       ir.passes.functionalize(member) used as a member / nested
+# The four declarations are the four cells of the table in PassBase's docstring.
+DECLS = {  # name -> (in_place, changes_input)
+    "in-place": (True, True),
+    "side-effect-only": (True, False),
+    "functional": (False, False),
+    "destructive": (False, True),
+}
+DECL_NAMES = list(DECLS)
+
+
+def decl_name(in_place: bool, changes_input: bool) -> str:
+    for k, v in DECLS.items():
+        if v == (bool(in_place), bool(changes_input)):
+            return k
+    return "?"
+
+
+def _edit_node_meta(model, region, rng, tag):
+    for n in region.nodes:
+        n.metadata_props["c13." + tag] = "seen"
+    return bool(region.nodes)
+
+
+def _edit_graph_doc(model, region, rng, tag):
+    g = rng.choice(region.graphs)
+    g.doc_string = (g.doc_string or "") + "|" + tag
+    g.metadata_props["c13." + tag] = "g"
+    return True
+
+
+def _edit_model_fields(model, region, rng, tag):
+    model.producer_name = "c13-" + tag
+    model.model_version = (model.model_version or 0) + 1
+    model.metadata_props["c13." + tag] = "m"
+    return True
+
+
+def _produced(region):
+    return [v for v in region.values if v.producer() is not None and v.name is not None]
+
+
+def _edit_value_rename(model, region, rng, tag):
+    cands = [v for v in _produced(region) if not v.is_graph_output()]
+    if not cands:
+        return False
+    v = rng.choice(cands)
+    v.name = f"{v.name}_{tag}"
+    return True
+
+
+def _edit_value_shape(model, region, rng, tag):
+    cands = _produced(region)
+    if not cands:
+        return False
+    v = rng.choice(cands)
+    v.shape = ir.Shape([3, "c13_" + tag])
+    v.metadata_props["c13." + tag] = "v"
+    return True
+
+
+def _edit_bypass(model, region, rng, tag):
+    cands = [n for n in region.nodes
+             if n.graph is not None and len(n.outputs) == 1 and len([i for i in n.inputs if i is not None]) == 1
+             and not any(a.type in (ir.AttributeType.GRAPH, ir.AttributeType.GRAPHS) for a in n.attributes.values())]
+    if not cands:
+        return False
+    def rewirable(n):
+        # an output of the graph is only handed over to a value produced in the same graph that is
+        # not an output yet (a value can be an output of one graph only)
+        if not n.outputs[0].is_graph_output():
+            return True
+        src = next(i for i in n.inputs if i is not None)
+        return src.producer() is not None and src.producer().graph is n.graph and not src.is_graph_output()
+
+    cands = [n for n in cands if rewirable(n)]
+    if not cands:
+        return False
+    n = rng.choice(cands)
+    src = next(i for i in n.inputs if i is not None)
+    n.outputs[0].replace_all_uses_with(src, replace_graph_outputs=True)
+    n.graph.remove(n, safe=True)
+    return True
+
+
+def _edit_append_node(model, region, rng, tag):
+    g = model.graph
+    own = list(g.inputs) + [o for n in g for o in n.outputs]
+    if not own:
+        return False
+    n = ir.Node("", "Identity", [rng.choice(own)], name="c13_node_" + tag)
+    n.outputs[0].name = "c13_out_" + tag
+    g.append(n)
+    return True
+
+
+def _edit_remove_unused(model, region, rng, tag):
+    cands = [n for n in region.nodes if n.graph is not None
+             and all(not o.uses() and not o.is_graph_output() for o in n.outputs)]
+    if not cands:
+        return False
+    n = rng.choice(cands)
+    n.graph.remove(n, safe=True)
+    return True
+
+
+def _edit_add_initializer(model, region, rng, tag):
+    name = "c13_init_" + tag
+    if name in model.graph.initializers:
+        return False
+    v = ir.Value(name=name, const_value=ir.tensor(np.array([1.0, 2.0], dtype=np.float32), name=name),
+                 type=ir.TensorType(DT.FLOAT), shape=ir.Shape([2]))
+    model.graph.register_initializer(v)
+    return True
+
+
+def _edit_opset(model, region, rng, tag):
+    g = rng.choice(region.graphs)
+    g.opset_imports["c13.domain"] = g.opset_imports.get("c13.domain", 0) + 1
+    return True
+
+
+def _edit_function(model, region, rng, tag):
+    fs = list(model.functions.values())
+    if not fs:
+        return False
+    f = rng.choice(fs)
+    f.doc_string = (f.doc_string or "") + "|" + tag
+    f.metadata_props["c13." + tag] = "f"
+    return True
+
+
+def _edit_node_attr(model, region, rng, tag):
+    if not region.nodes:
+        return False
+    n = rng.choice(region.nodes)
+    n.attributes["c13_" + tag] = ir.AttrInt64("c13_" + tag, 7)
+    n.doc_string = (n.doc_string or "") + "|" + tag
+    return True
+
+
+PASS_EDITS = {
+    "node_meta": _edit_node_meta, "graph_doc": _edit_graph_doc, "model_fields": _edit_model_fields,
+    "value_rename": _edit_value_rename, "value_shape": _edit_value_shape, "bypass_node": _edit_bypass,
+    "append_node": _edit_append_node, "remove_unused_node": _edit_remove_unused,
+    "add_initializer": _edit_add_initializer, "opset_import": _edit_opset, "function_doc_meta": _edit_function,
+    "node_attr_doc": _edit_node_attr,
+}
+
+
+class SyntheticFailure(RuntimeError):
+    pass
+
+
+def make_synthetic(decl: str, seed: int, fails: bool, log: list):
+    """A user-style pass whose behaviour matches its declaration: 'in-place' edits the model it is
+    given and returns it; 'side-effect-only' only reads it and returns it; 'functional' leaves it
+    alone and returns an edited copy; 'destructive' edits it and returns a copy.  ``fails``: raise
+    after the work is done (a pass that breaks half-way through a pipeline).  What it did is
+    appended to ``log``.  Edits are ordinary public-API rewrites (PASS_EDITS)."""
+    import random
+
+    from onnx_ir import passes as ir_passes
+    from vfpy.c13_lib import analyze_model
+
+    in_place, changes_input = DECLS[decl]
+
+    class Synthetic(ir_passes.PassBase):
+        calls = 0
+
+        @property
+        def in_place(self) -> bool:
+            return in_place
+
+        @property
+        def changes_input(self) -> bool:
+            return changes_input
+
+        def __repr__(self) -> str:
+            return f"Synthetic[{decl}{'!raises' if fails else ''}]"
+
+        def edit(self, model) -> None:
+            self.calls += 1
+            rng = random.Random(f"c13pass:{seed}:{self.calls}")
+            tag = f"{seed % 1000}x{self.calls}"
+            region, _ = analyze_model(model)
+            names = sorted(PASS_EDITS)
+            rng.shuffle(names)
+            done = [nm for nm in names[: rng.randint(2, 4)] if PASS_EDITS[nm](model, region, rng, tag)]
+            if not done:
+                _edit_model_fields(model, region, rng, tag)
+                done = ["model_fields"]
+            log.extend(f"{decl}:{nm}" for nm in done)
+
+        def call(self, model):
+            if decl == "in-place":
+                self.edit(model)
+                out = model
+            elif decl == "side-effect-only":
+                region, _ = analyze_model(model)
+                log.append(f"{decl}:read({len(region.nodes)} nodes)")
+                out = model
+            elif decl == "functional":
+                out = model.clone()
+                self.edit(out)
+            else:
+                self.edit(model)
+                out = model.clone()
+            if fails:
+                raise SyntheticFailure(f"synthetic {decl} pass gives up after its work")
+            return ir_passes.PassResult(out, decl != "side-effect-only")
+
+    return Synthetic()
+
+
+def build_pipeline(tree, log: list):
+    from onnx_ir import passes as ir_passes
+    from onnx_ir.passes import common as common_passes
+
+    k = tree[0]
+    if k == "b":
+        return getattr(common_passes, tree[1])()
+    if k == "s":
+        return make_synthetic(tree[1], tree[2], bool(tree[3]), log)
+    if k == "seq":
+        return ir_passes.Sequential(*[build_pipeline(t, log) for t in tree[1]])
+    if k == "pm":
+        return ir_passes.PassManager([build_pipeline(t, log) for t in tree[1]], steps=tree[2], early_stop=bool(tree[3]))
+    if k == "fn":
+        return ir_passes.functionalize(build_pipeline(tree[1], log))
+    raise ValueError(f"unknown pipeline node {tree!r}")
+
+
+TOP_KIND = {"b": "built-in pass", "s": "user-defined pass", "seq": "Sequential", "pm": "PassManager",
+            "fn": "functionalized pass"}
+
+
+def top_kind(tree) -> str:
+    return TOP_KIND[tree[0]]
+
+
+def describe_pipeline(tree) -> str:
+    k = tree[0]
+    if k == "b":
+        return tree[1]
+    if k == "s":
+        return f"<{tree[1]}{'!raises' if tree[3] else ''}>"
+    if k == "seq":
+        return "Sequential(" + ", ".join(describe_pipeline(t) for t in tree[1]) + ")"
+    if k == "pm":
+        return f"PassManager[steps={tree[2]},early_stop={bool(tree[3])}](" + ", ".join(describe_pipeline(t) for t in tree[1]) + ")"
+    return "functionalize(" + describe_pipeline(tree[1]) + ")"
+
+
+def leaves(tree) -> list:
+    k = tree[0]
+    if k in ("b", "s"):
+        return [tree]
+    if k == "fn":
+        return leaves(tree[1])
+    return [x for t in tree[1] for x in leaves(t)]
+
+
+def leaf_class(leaf) -> str:
+    """Declaration class of a leaf, for counters (built-ins are all in-place but CheckerPass)."""
+    if leaf[0] == "s":
+        return leaf[1] + ("!raises" if leaf[3] else "")
+    return "built-in:" + ("side-effect-only" if leaf[1] == "CheckerPass" else "in-place")
+
+
+C_API_PASSES = ("CheckerPass", "ShapeInferencePass")
+
+
+def gen_pipeline(rng, family: str, builtins: list) -> dict:
+    """One pipeline description {'tree', 'arg', 'repeat'}.  The first member's declaration is drawn
+    uniformly from the four declaration classes (the flags of a Sequential are derived from its
+    first member), the others freely; members may be nested Sequential / PassManager objects and
+    functionalized passes.  Passes that call into onnx's C++ (which can crash on the structural
+    family) are used on the 'exec' family only and only as the very first pass to run."""
+    plain = [p for p in builtins if p not in C_API_PASSES]
+
+    def synthetic(decl=None):
+        return ["s", decl or rng.choice(DECL_NAMES), rng.randrange(1 << 20), rng.random() < 0.06]
+
+    def member(depth, lead, first):
+        if first:
+            decl = rng.choice(DECL_NAMES)
+            if decl == "side-effect-only" and lead and family == "exec" and rng.random() < 0.5:
+                return ["b", "CheckerPass"]
+            if decl == "in-place" and rng.random() < 0.5:
+                if lead and family == "exec" and rng.random() < 0.15:
+                    return ["b", "ShapeInferencePass"]
+                return ["b", rng.choice(plain)]
+            if decl == "functional" and rng.random() < 0.3:
+                return ["fn", member(depth + 1, lead, False)]
+            return synthetic(decl)
+        r = rng.random()
+        if depth < 2 and r < 0.12:
+            return composite(depth + 1, lead)
+        if r < 0.18:
+            return ["fn", member(depth + 1, lead, False)]
+        if r < 0.45:
+            return ["b", rng.choice(plain)]
+        return synthetic()
+
+    def composite(depth, lead):
+        n = rng.randint(2, 4) if depth == 0 else rng.randint(1, 3)
+        members = [member(depth, lead and i == 0, i == 0) for i in range(n)]
+        if rng.random() < 0.35:
+            return ["pm", members, rng.choice([1, 2, 2, 3]), rng.random() < 0.5]
+        return ["seq", members]
+
+    r = rng.random()
+    if r < 0.08:
+        tree = synthetic()
+    elif r < 0.16:
+        tree = ["fn", composite(0, True)]
+    else:
+        tree = composite(0, True)
+    return {"tree": tree, "arg": "result" if rng.random() < 0.2 else "model", "repeat": 2 if rng.random() < 0.15 else 1}
+
+
+def pipeline_reductions(pipe: dict):
+    """Simpler variants of a pipeline description, for greedy shrinking."""
+    if pipe.get("arg") != "model":
+        yield dict(pipe, arg="model")
+    if pipe.get("repeat", 1) != 1:
+        yield dict(pipe, repeat=1)
+
+    def variants(tree):
+        k = tree[0]
+        if k == "s" and tree[3]:
+            yield ["s", tree[1], tree[2], False]
+        elif k == "fn":
+            yield tree[1]
+            for v in variants(tree[1]):
+                yield ["fn", v]
+        elif k in ("seq", "pm"):
+            ms = tree[1]
+            if len(ms) > 1:
+                for i in range(len(ms)):
+                    yield [k, ms[:i] + ms[i + 1:]] + tree[2:]
+            else:
+                yield ms[0]
+            if k == "pm":
+                if tree[2] != 1:
+                    yield ["pm", ms, 1, tree[3]]
+                yield ["seq", ms]
+            for i, m in enumerate(ms):
+                if m[0] == "b":
+                    yield [k, ms[:i] + [["s", leaf_class(m).split(":")[1], 1, False]] + ms[i + 1:]] + tree[2:]
+                for v in variants(m):
+                    yield [k, ms[:i] + [v] + ms[i + 1:]] + tree[2:]
+
+    for v in variants(pipe["tree"]):
+        yield dict(pipe, tree=v)
